@@ -109,6 +109,20 @@ impl Iterator for FlopExhaustiveEvaluatorIterator {
         #[cfg(feature = "verif-hooks")]
         let _verif_guard = crate::verif_hooks::NextGuard::enter();
 
+        // blocked deals are skipped in a loop: a long run of them (a narrow range
+        // beside wide ones) must not grow the stack.
+        loop {
+            if let Some(showdown) = self.step()? {
+                return Some(showdown);
+            }
+        }
+    }
+}
+
+impl FlopExhaustiveEvaluatorIterator {
+    // deals the current position and advances to the next one. returns None when
+    // the scope is exhausted and Some(None) when the dealt position was blocked.
+    fn step(&mut self) -> Option<Option<Showdown>> {
         if self.current_turn_index >= self.turn_to && self.current_river_index >= self.river_to {
             return None;
         }
@@ -196,21 +210,21 @@ impl Iterator for FlopExhaustiveEvaluatorIterator {
                 self.current_player_indexes[i] = 0;
             }
 
-            return showdown.or_else(|| self.next());
+            return Some(showdown);
         }
 
         if self.current_river_index < 48 {
             self.current_river_index += 1;
             self.current_player_indexes.fill(0);
 
-            return showdown.or_else(|| self.next());
+            return Some(showdown);
         }
 
         self.current_turn_index += 1;
         self.current_river_index = self.current_turn_index + 1;
         self.current_player_indexes.fill(0);
 
-        showdown.or_else(|| self.next())
+        Some(showdown)
     }
 }
 
